@@ -69,6 +69,7 @@ class Layout:
         self.lock_base = {sp["lock"]: f[0] for f, sp in zip(funcs, self.fspec) if "lock" in sp}   # lock template -> key template
         self.direct_templates = direct    # templates whose keys the generator may write directly (None = all)
         self.opts = frozenset()           # wrapping options applied to every decorated function that takes them
+        self.late_regs = []               # (tag template, key template) registered by the history event `reg N`, not up front
         self.keys = []  # (string, template idx, fields)
         for ti, tpl in enumerate(templates):
             names = [f for _, f, _, _ in string.Formatter().parse(tpl) if f]
@@ -112,15 +113,27 @@ class Layout:
 
     # -- the harness's own reading of the registry: which tags does key K get?  (independent of cashews:
     #    plain substitution of the key's own field values into the tag template)
-    def expected_key_tags(self, ki: int) -> list[int]:
+    def expected_key_tags(self, ki: int, late=()) -> list[int]:
+        """`late`: which of the layout's late registrations (`late_regs`: register_tag calls issued as history events `reg N`)
+        have been made so far"""
         memo = self.__dict__.setdefault("_ekt", {})
-        if ki not in memo:
-            memo[ki] = self._expected_key_tags(ki)
-        return list(memo[ki])
+        mk = (ki, tuple(sorted(late)))
+        if mk not in memo:
+            memo[mk] = self._expected_key_tags(ki, mk[1])
+        return list(memo[mk])
 
-    def _expected_key_tags(self, ki: int) -> list[int]:
+    def _expected_key_tags(self, ki: int, late=()) -> list[int]:
         _, ti, fd = self.keys[ki]
         out = []
+        if late:
+            base = self._expected_key_tags(ki)
+            for n in late:
+                tag_tpl, key_tpl = self.late_regs[n]
+                if key_tpl == self.templates[ti]:
+                    j = self.tags.index(fmt(tag_tpl, fd))
+                    if j not in base:
+                        base.append(j)
+            return sorted(base)
         if ti in self.lock_base:
             # the lock key `<key>:lock` of an `early` function is registered for nothing, but the regular expression of
             # its key's template takes it in (the last field swallows ':lock'): field-less tags of that template apply
@@ -186,10 +199,10 @@ class Layout:
         rx = re.compile(".*".join(re.escape(p) for p in self.patterns[pi].split("*")), re.DOTALL)
         return [i for i, (k, _, _) in enumerate(self.keys) if rx.fullmatch(k)]
 
-    def reg_field(self) -> str:
+    def reg_field(self, late=()) -> str:
         ents = []
         for i in range(len(self.keys)):
-            ts = self.expected_key_tags(i)
+            ts = self.expected_key_tags(i, late)
             if ts:
                 ents.append(f"{i}:" + "+".join(map(str, ts)))
         return ";".join(ents) or "-"
@@ -309,6 +322,14 @@ def make_layout(name: str) -> Layout:
                       funcs=[(0, ["cols:{cols}", "all"], ["cols"]), (0, ["cols:{cols}"], ["cols"]),
                              (1, ["all", "opts:{opts}"], ["opts"])],
                       patterns=["r:a*", "q:*", "r:*z", "r:*"])
+    if name == "late":
+        # registrations interleaved with the history: tag `t` and `g:{i}` are registered for the family a:{i} up front and for
+        # the family b:{i} only by the events `reg 0` / `reg 1` - possibly after keys of b were already written, read and
+        # removed (whatever the registry remembered about them must not outlive the new registration)
+        lay = Layout(name, ["a:{i}", "b:{i}"], {"i": ["1", "2"]}, ["t", "g:{i}"],
+                     regs=[("t", "a:{i}"), ("g:{i}", "a:{i}")], funcs=[], patterns=["a:*", "b:*", "b:1*"])
+        lay.late_regs = [("t", "b:{i}"), ("g:{i}", "b:{i}")]
+        return lay
     if name == "nl":
         # argument values that contain line breaks: the registry's regular expression has to take them in (a field is
         # `.+`: with re.DOTALL), or the on-remove pruning skips the key and a later delete_tags deletes its re-creation
@@ -357,7 +378,7 @@ CONFIGS = {
 }
 
 # which keys of a layout go to the second data backend of the configurations `split*` (a key prefix; it need not end at ':')
-SPLIT_PREFIX = {"plain": "k:1", "unreg": "k:1", "templ": "s:", "decor": "c:", "mut": "q:", "strat": "hit:", "nl": "g:", "big": "o:"}
+SPLIT_PREFIX = {"plain": "k:1", "unreg": "k:1", "templ": "s:", "decor": "c:", "mut": "q:", "strat": "hit:", "nl": "g:", "big": "o:", "late": "b:"}
 
 
 def val_of(tok: str):
@@ -421,6 +442,7 @@ class Runner:
         self.next_ttl = None
         self.next_early = None
         self.next_dur = 0
+        self.late: set[int] = set()             # late registrations made so far
         self.purge_task = None
         self.refreshed: dict[int, dict] = {}    # key -> what its entry / tag sets looked like before its latest write, if that was a decorator's re-write of a live entry
 
@@ -617,7 +639,7 @@ class Runner:
         self.ever[ki].update(tags)
         self.must_be_dead.pop(ki, None)
         self.refreshed.pop(ki, None)
-        exp = self.lay.expected_key_tags(ki)
+        exp = self.lay.expected_key_tags(ki, self.late)
         if any(t not in exp for t in tags):
             self.registered = False
 
@@ -804,6 +826,22 @@ class Runner:
             return "delmatch " + " ".join(map(str, ks)), ("U" if r is None else f"?{r!r}")
         if op == "deltags":
             return await self._deltags(w, line)
+        if op == "reg":
+            n = int(w[1])
+            if n in self.late:
+                return "adv 0", "U"                    # (already made: nothing happens)
+            c.register_tag(*lay.late_regs[n])
+            self.late.add(n)
+            self._bump("late_registration")
+            if any(self._raw(k) is not None or self.ever[k] for k in range(len(lay.keys)) if lay.keys[k][1] == lay.templates.index(lay.late_regs[n][1])):
+                self._bump("late_registration_for_a_family_already_in_use")
+            # from now on the registry has to derive the new tags from the keys of that family - whatever it answered before
+            for i, (k, _, _) in enumerate(lay.keys):
+                got = sorted(lay.tags.index(t) if t in lay.tags else -1 for t in c.get_key_tags(k))
+                if got != lay.expected_key_tags(i, self.late):
+                    return f"?keytags {i}", (f"after register_tag{lay.late_regs[n]!r}: get_key_tags({k!r}) -> {c.get_key_tags(k)!r}, expected tags "
+                                              f"{[lay.tags[j] for j in lay.expected_key_tags(i, self.late)]}")
+            return "reg " + lay.reg_field(self.late), "U"
         raise HarnessError(f"bad op {w}")
 
     async def _call_strategy(self, w, line):
@@ -1577,6 +1615,55 @@ def gen_refresh(rng, lay: Layout) -> list[str]:
     if rng.random() < 0.6:
         ops.append(gen_strat_call(rng, lay, ki, fi))
         ops.append(f"get {ki}")
+    return ops
+
+
+def gen_latereg(rng, lay: Layout) -> list[str]:
+    """directed at registrations made while the cache is in use (layout late): keys of the family b are written (untagged - their
+    tags are not registered yet), read, removed in one of the ways, maybe after their ttl; then `reg N` registers a tag for the
+    family; a key of it is written WITH the tag, explicitly removed, re-created without it; delete_tags of the tag must spare it
+    (and remove the companions that carry it)."""
+    nk = len(lay.keys)
+    bkeys = [k for k in range(nk) if lay.keys[k][1] == 1]
+    akeys = [k for k in range(nk) if lay.keys[k][1] == 0]
+    kb = rng.choice(bkeys)
+    n = rng.randrange(len(lay.late_regs))
+    ops = []
+    late = set()
+    for _ in range(rng.randint(0, 3)):      # the family is in use before its tag is registered
+        k = rng.choice(bkeys + [kb, kb])
+        ops.append(rng.choice([f"set {k} {rng.choice(VALS)} {rng.choice(['-', '8', '800'])} a -", f"get {k}", f"delete {k}", f"exists {k}",
+                               f"adv {rng.choice([1, 9, 17])}", f"delmatch {rng.choice(lay.wild_patterns_for(k))}", f"delmany {k} {rng.choice(akeys)}"]))
+    if rng.random() < 0.3:
+        m = rng.randrange(len(lay.late_regs))
+        ops.append(f"reg {m}")
+        late.add(m)
+    for ko in rng.sample(akeys, rng.randint(0, 2)):
+        ops.append(f"set {ko} {rng.choice(VALS)} {rng.choice(['-', '800'])} a {show_tags(rng.sample(lay.expected_key_tags(ko), 1))}")
+    ops.append(f"reg {n}")
+    late.add(n)
+    t = [x for x in lay.expected_key_tags(kb, late) if x not in lay.expected_key_tags(kb, late - {n})][0]
+    carried = [t] + [x for x in lay.expected_key_tags(kb, late) if x != t and rng.random() < 0.4]
+    ops.append(f"set {kb} {rng.choice(VALS)} {rng.choice(['-', '800', '24'])} a {show_tags(carried)}" if rng.random() < 0.8 else f"incr {kb} 1 - {show_tags(carried)}")
+    if rng.random() < 0.3:
+        ops.append(f"get {rng.randrange(nk)}")
+    how = rng.choice(["delete", "delete", "delmany", "exact", "glob"])
+    if how == "delete":
+        ops.append(f"delete {kb}")
+    elif how == "delmany":
+        ops.append(f"delmany {rng.choice(akeys)} {kb}")
+    elif how == "exact":
+        ops.append(f"delmatch {lay.exact_of[kb]}")
+    else:
+        ops.append(f"delmatch {rng.choice(lay.wild_patterns_for(kb))}")
+    if rng.random() < 0.3:
+        m = rng.randrange(len(lay.late_regs))
+        ops.append(f"reg {m}")
+    ops.append(f"set {kb} {rng.choice(VALS)} {rng.choice(['-', '800'])} a -")
+    ops.append(f"deltags {t}")
+    order = list(range(nk))
+    rng.shuffle(order)
+    ops += [f"get {k}" for k in order]
     return ops
 
 
